@@ -639,11 +639,25 @@ fn reassociate_applications<'a>(acc: Option<Term<'a>>, term: &Term<'a>) -> Term<
         Variant::Application(applicand, argument) => {
             return if argument.group {
                 if let Some(acc) = acc {
-                    Term {
-                        source_range: span(acc.source_range, argument.source_range),
+                    // The applicand is an operand in its own right, even if it's a (grouped)
+                    // application. So we extend the accumulator with it rather than threading the
+                    // accumulator into it.
+                    let source_range = span(acc.source_range, argument.source_range);
+                    let left = Term {
+                        source_range: span(acc.source_range, applicand.source_range),
                         group: true,
                         variant: Variant::Application(
-                            Rc::new(reassociate_applications(Some(acc), applicand)),
+                            Rc::new(acc),
+                            Rc::new(reassociate_applications(None, applicand)),
+                        ),
+                        errors: vec![],
+                    };
+
+                    Term {
+                        source_range,
+                        group: true,
+                        variant: Variant::Application(
+                            Rc::new(left),
                             Rc::new(reassociate_applications(None, argument)),
                         ),
                         errors: vec![],
@@ -910,12 +924,32 @@ fn reassociate_products_and_quotients<'a>(
         },
         Variant::Product(term1, term2) => {
             return if term2.group {
-                if let Some(acc) = acc {
+                if let Some((acc, operator)) = acc {
+                    // The left subterm is an operand in its own right, even if it's a (grouped)
+                    // product or quotient. So we extend the accumulator with it rather than threading the
+                    // accumulator into it.
+                    let source_range = span(acc.source_range, term2.source_range);
+                    let left = Term {
+                        source_range: span(acc.source_range, term1.source_range),
+                        group: true,
+                        variant: match operator {
+                            ProductOrQuotient::Product => Variant::Product(
+                                Rc::new(acc),
+                                Rc::new(reassociate_products_and_quotients(None, term1)),
+                            ),
+                            ProductOrQuotient::Quotient => Variant::Quotient(
+                                Rc::new(acc),
+                                Rc::new(reassociate_products_and_quotients(None, term1)),
+                            ),
+                        },
+                        errors: vec![],
+                    };
+
                     Term {
-                        source_range: span(acc.0.source_range, term2.source_range),
+                        source_range,
                         group: true,
                         variant: Variant::Product(
-                            Rc::new(reassociate_products_and_quotients(Some(acc), term1)),
+                            Rc::new(left),
                             Rc::new(reassociate_products_and_quotients(None, term2)),
                         ),
                         errors: vec![],
@@ -961,12 +995,32 @@ fn reassociate_products_and_quotients<'a>(
         }
         Variant::Quotient(term1, term2) => {
             return if term2.group {
-                if let Some(acc) = acc {
+                if let Some((acc, operator)) = acc {
+                    // The left subterm is an operand in its own right, even if it's a (grouped)
+                    // product or quotient. So we extend the accumulator with it rather than threading the
+                    // accumulator into it.
+                    let source_range = span(acc.source_range, term2.source_range);
+                    let left = Term {
+                        source_range: span(acc.source_range, term1.source_range),
+                        group: true,
+                        variant: match operator {
+                            ProductOrQuotient::Product => Variant::Product(
+                                Rc::new(acc),
+                                Rc::new(reassociate_products_and_quotients(None, term1)),
+                            ),
+                            ProductOrQuotient::Quotient => Variant::Quotient(
+                                Rc::new(acc),
+                                Rc::new(reassociate_products_and_quotients(None, term1)),
+                            ),
+                        },
+                        errors: vec![],
+                    };
+
                     Term {
-                        source_range: span(acc.0.source_range, term2.source_range),
+                        source_range,
                         group: true,
                         variant: Variant::Quotient(
-                            Rc::new(reassociate_products_and_quotients(Some(acc), term1)),
+                            Rc::new(left),
                             Rc::new(reassociate_products_and_quotients(None, term2)),
                         ),
                         errors: vec![],
@@ -1172,12 +1226,32 @@ fn reassociate_sums_and_differences<'a>(
         },
         Variant::Sum(term1, term2) => {
             return if term2.group {
-                if let Some(acc) = acc {
+                if let Some((acc, operator)) = acc {
+                    // The left subterm is an operand in its own right, even if it's a (grouped)
+                    // sum or difference. So we extend the accumulator with it rather than threading the
+                    // accumulator into it.
+                    let source_range = span(acc.source_range, term2.source_range);
+                    let left = Term {
+                        source_range: span(acc.source_range, term1.source_range),
+                        group: true,
+                        variant: match operator {
+                            SumOrDifference::Sum => Variant::Sum(
+                                Rc::new(acc),
+                                Rc::new(reassociate_sums_and_differences(None, term1)),
+                            ),
+                            SumOrDifference::Difference => Variant::Difference(
+                                Rc::new(acc),
+                                Rc::new(reassociate_sums_and_differences(None, term1)),
+                            ),
+                        },
+                        errors: vec![],
+                    };
+
                     Term {
-                        source_range: span(acc.0.source_range, term2.source_range),
+                        source_range,
                         group: true,
                         variant: Variant::Sum(
-                            Rc::new(reassociate_sums_and_differences(Some(acc), term1)),
+                            Rc::new(left),
                             Rc::new(reassociate_sums_and_differences(None, term2)),
                         ),
                         errors: vec![],
@@ -1223,12 +1297,32 @@ fn reassociate_sums_and_differences<'a>(
         }
         Variant::Difference(term1, term2) => {
             return if term2.group {
-                if let Some(acc) = acc {
+                if let Some((acc, operator)) = acc {
+                    // The left subterm is an operand in its own right, even if it's a (grouped)
+                    // sum or difference. So we extend the accumulator with it rather than threading the
+                    // accumulator into it.
+                    let source_range = span(acc.source_range, term2.source_range);
+                    let left = Term {
+                        source_range: span(acc.source_range, term1.source_range),
+                        group: true,
+                        variant: match operator {
+                            SumOrDifference::Sum => Variant::Sum(
+                                Rc::new(acc),
+                                Rc::new(reassociate_sums_and_differences(None, term1)),
+                            ),
+                            SumOrDifference::Difference => Variant::Difference(
+                                Rc::new(acc),
+                                Rc::new(reassociate_sums_and_differences(None, term1)),
+                            ),
+                        },
+                        errors: vec![],
+                    };
+
                     Term {
-                        source_range: span(acc.0.source_range, term2.source_range),
+                        source_range,
                         group: true,
                         variant: Variant::Difference(
-                            Rc::new(reassociate_sums_and_differences(Some(acc), term1)),
+                            Rc::new(left),
                             Rc::new(reassociate_sums_and_differences(None, term2)),
                         ),
                         errors: vec![],
